@@ -122,7 +122,7 @@ def parse_contract(lines, fnrec, unit_name):
             c['loops'][int(m.group(1))] = cur
             sub = None
             continue
-        m = re.match(r'^hint\s+(before|after|start|end)\s*(".*")?\s*(#\d+)?\s*$', s)
+        m = re.match(r'^hint\s+(beforelast|before|after|start|end)\s*(".*")?\s*(#\d+)?\s*$', s)
         if m:
             section = 'hint'
             cur = dict(where=m.group(1), anchor=(m.group(2) or '""')[1:-1], nth=int((m.group(3) or '#1')[1:]), text=[])
@@ -180,6 +180,12 @@ def insert_at_anchor(body, where, anchor, nth, text):
     if where == 'end':
         i = body.rindex('}')
         return body[:i] + '\n' + text + '\n' + body[i:]
+    if where == 'beforelast':
+        pos = body.rfind(anchor)
+        if pos < 0:
+            raise ExtractError('hint anchor not found: %r' % anchor)
+        ls = body.rfind('\n', 0, pos) + 1
+        return body[:ls] + text + '\n' + body[ls:]
     pos = -1
     for _ in range(nth):
         pos = body.find(anchor, pos + 1)
@@ -284,6 +290,49 @@ def expand_includes(path, seen=None):
     return out
 
 
+STD_TYPES = set('String Option Vec Box Self HashMap HashSet NaiveDate NaiveTime NaiveDateTime Result Some None Ok Err'.split())
+_type_index = {}
+
+
+def type_index(repo):
+    if repo in _type_index:
+        return _type_index[repo]
+    import glob
+    idx = {}
+    for f in sorted(glob.glob(os.path.join(repo, 'src/fields/*.rs')) + glob.glob(os.path.join(repo, 'src/messages/*.rs')) + glob.glob(os.path.join(repo, 'src/*.rs')) + glob.glob(os.path.join(repo, 'src/headers/*.rs'))):
+        src = rsx.Source.get(f)
+        for m in re.finditer(r'(?<![A-Za-z0-9_])pub\s+(struct|enum|type)\s+([A-Z][A-Za-z0-9_]*)', src.masked):
+            idx.setdefault(m.group(2), (os.path.relpath(f, repo), m.group(1)))
+    _type_index[repo] = idx
+    return idx
+
+
+def type_closure(repo, file, name, asm):
+    idx = type_index(repo)
+    out = []
+    seen = getattr(asm, 'types_seen', None)
+    if seen is None:
+        seen = asm.types_seen = set()
+    work = [name]
+    while work:
+        n = work.pop(0)
+        if n in seen or n in STD_TYPES:
+            continue
+        if n not in idx:
+            continue
+        seen.add(n)
+        f, kind = idx[n]
+        src = rsx.Source.get(os.path.join(repo, f))
+        text = rsx.strip_attrs(rsx.strip_comments(src.item(kind, n)))
+        out.append((text, '%s %s %s' % (f, kind, n)))
+        body = text[text.index('{'):] if '{' in text else text
+        for t in re.findall(r'(?<![A-Za-z0-9_:])([A-Z][A-Za-z0-9_]*)', rsx.mask(body)):
+            if t not in seen and t not in STD_TYPES and t in idx:
+                # enum variant names that coincide with type names are harmless (the type is simply emitted too)
+                work.append(t)
+    return out
+
+
 def assemble(unit_path, repo=REPO):
     asm = Assembled()
     src_lines = expand_includes(unit_path)
@@ -305,6 +354,20 @@ def assemble(unit_path, repo=REPO):
             asm.add(open(p, encoding='utf-8').read().rstrip('\n'))
             asm.add('// ---- end include %s' % toks[1])
             i += 1
+        elif d == 'stub':
+            # a declared assumption local to this unit (callee left outside the contracts): copied verbatim, listed in evidence
+            reason = line[3:].strip()[len('stub'):].strip()
+            j = i + 1
+            block = []
+            while j < len(src_lines) and not src_lines[j].startswith('//@endstub'):
+                block.append(src_lines[j]); j += 1
+            if j >= len(src_lines):
+                raise ExtractError('//@stub not closed')
+            asm.add('// ---- declared-assumption: ' + reason)
+            asm.add('\n'.join(block))
+            asm.add('// ---- end declared-assumption')
+            asm.manual.append('declared assumption (unit stub): ' + reason)
+            i = j + 1
         elif d == 'props':
             asm.unit_props |= set(toks[1:])
             i += 1
@@ -323,6 +386,48 @@ def assemble(unit_path, repo=REPO):
                 text = '#[%s]\n' % derive[0] + text
             asm.types.append('%s %s %s' % (file, kind, name))
             asm.add(text)
+            i += 1
+        elif d == 'types':
+            # transitive closure of the type definitions reachable from one struct/enum (searched in src/fields, src/messages)
+            file, name = toks[1], toks[2]
+            derive = [t for t in toks[3:] if t.startswith('derive(')]
+            for text, origin in type_closure(repo, file, name, asm):
+                if derive:
+                    text = '#[%s]\n' % derive[0] + text
+                asm.types.append(origin)
+                asm.add(text)
+            i += 1
+        elif d == 'constfn':
+            # associated `const NAME: &[&str] = &["A", ...];`  ->  exec fn NAME() returning the same literals, with the
+            # literal list as its (proved) postcondition; uses `Self::NAME` / `Type::NAME` are rewritten to calls.
+            file, name = toks[1], toks[2]
+            rest = toks[3:]
+            kv = parse_kv(rest)
+            scope = rest[rest.index('in') + 1].strip('"') if 'in' in rest else None
+            src = rsx.Source.get(os.path.join(repo, file))
+            lo, hi = 0, len(src.src)
+            if scope:
+                _, ob, cb = rsx.find_block(src.src, src.masked, scope)
+                lo, hi = ob + 1, cb
+            m = re.search(r'(?<![A-Za-z0-9_])const\s+' + re.escape(name) + r'\s*:[^=]*=\s*&\s*\[', src.masked[lo:hi])
+            if not m:
+                raise ExtractError('constfn: const %s not found' % name)
+            ob = lo + m.end() - 1
+            cb = rsx.match_close(src.masked, ob)
+            elems = rsx.split_args(rsx.strip_comments(src.src[ob + 1:cb]))
+            if not all(re.match(r'^"(\\.|[^"\\])*"$', e) for e in elems):
+                raise ExtractError('constfn: %s has non-literal elements' % name)
+            ens = ['r@.len() == %d' % len(elems)] + ['r@[%d]@ == %s@' % (k, e) for k, e in enumerate(elems)]
+            text = ''
+            if kv.get('impl'):
+                text += 'impl %s {\n' % kv['impl']
+            text += "pub fn %s() -> (r: Vec<&'static str>)\n    ensures\n" % name + ''.join('        %s,\n' % e for e in ens)
+            text += '{\n    vec![%s]\n}\n' % ', '.join(elems)
+            if kv.get('impl'):
+                text += '}\n'
+            asm.add(text)
+            asm.types.append('%s const %s (as fn, %d literals)' % (file, name, len(elems)))
+            asm.constfns = getattr(asm, 'constfns', []) + [name]
             i += 1
         elif d == 'const':
             file, name = toks[1], toks[2]
@@ -373,6 +478,9 @@ def assemble(unit_path, repo=REPO):
                 asm.manual.append('%s: %r => %r' % (fnrec.key, old, new))
             contract['bodyrep'] = []
             body = rw.apply_all(body, opts)
+            for cname in getattr(asm, 'constfns', []):
+                body, k = re.subn(r'(?<![A-Za-z0-9_])((?:Self|[A-Z][A-Za-z0-9_]*)::' + re.escape(cname) + r')(?![A-Za-z0-9_(])', r'\1()', body)
+                rw.note('assoc-const-str-slice->fn call', k)
             n_cr = len(re.findall(r'crate::Result<', sig + body))
             if n_cr:
                 sig = sig.replace('crate::Result<', 'crate::cr::Result<')
